@@ -7,6 +7,9 @@ EXTENDS TxBalance, Json
 OffsetsC == {-1, 0, 1}
 SplitsC == {-2, -1, 1, 2}
 SplitsSmall == {-2, 1}
+Pat1 == {<<0, 1>>}
+Pat3 == {<<0, 0>>, <<0, 1>>, <<1, 2>>}
+Pat9 == (0..2) \X (0..2)
 Case == [grp |-> grp, body |-> body, ctx |-> ctx, applied |-> applied,
          expect |-> [valid |-> Valid(body, ctx), rule |-> FirstFailing(body, ctx),
                      nvc |-> NoValueCreated(body, ctx), degenerate |-> Degenerate(body, ctx)]]
